@@ -1631,6 +1631,11 @@ class Evaluator:
                 return x
         if T.tag(base) == 'phi':
             return T.phi(base[1], self._slice(base[2], lo, hi), self._slice(base[3], lo, hi))
+        # a bound that is a case distinction (len(row) where building the row could raise): one slice per case
+        if T.tag(hi) == 'phi':
+            return T.phi(hi[1], self._slice(base, lo, hi[2]), self._slice(base, lo, hi[3]))
+        if T.tag(lo) == 'phi':
+            return T.phi(lo[1], self._slice(base, lo[2], hi), self._slice(base, lo[3], hi))
         if T.is_op(base, 'BARR'):
             return T.raw_op('BARR', T.slice_(base[2], lo, hi))
         return T.slice_(base, lo, hi)
